@@ -42,20 +42,20 @@ package xmpp
 // the id and the type of a stanza are its attributes of these names in no
 // namespace: a prefixed attribute of some other namespace (x:id, x:type) is
 // neither; both are found whenever they are present
-//@   ensures[C05,C07] result0 >= 0 ==> unq(attrs[result0], "id") && result2 == attrs[result0].Value
-//@   ensures[C05,C07] result1 >= 0 ==> unq(attrs[result1], "type") && result3 == attrs[result1].Value
-//@   ensures[C05,C07] result0 == -1 ==> result2 == ""
-//@   ensures[C05,C07] result1 == -1 ==> result3 == ""
-//@   ensures[C05,C07] (exists k int :: 0 <= k && k < len(attrs) && unq(attrs[k], "id")) ==> result0 >= 0
-//@   ensures[C05,C07] (exists k int :: 0 <= k && k < len(attrs) && unq(attrs[k], "type")) ==> result1 >= 0
+//@   ensures[C05,C06,C07] result0 >= 0 ==> unq(attrs[result0], "id") && result2 == attrs[result0].Value
+//@   ensures[C05,C06,C07] result1 >= 0 ==> unq(attrs[result1], "type") && result3 == attrs[result1].Value
+//@   ensures[C05,C06,C07] result0 == -1 ==> result2 == ""
+//@   ensures[C05,C06,C07] result1 == -1 ==> result3 == ""
+//@   ensures[C05,C06,C07] (exists k int :: 0 <= k && k < len(attrs) && unq(attrs[k], "id")) ==> result0 >= 0
+//@   ensures[C05,C06,C07] (exists k int :: 0 <= k && k < len(attrs) && unq(attrs[k], "type")) ==> result1 >= 0
 //@   loop 1
 //@     invariant -1 <= idIdx && idIdx < len(attrs) && -1 <= typIdx && typIdx < len(attrs)
-//@     invariant[C05,C07] idIdx >= 0 ==> unq(attrs[idIdx], "id") && id == attrs[idIdx].Value
-//@     invariant[C05,C07] typIdx >= 0 ==> unq(attrs[typIdx], "type") && typ == attrs[typIdx].Value
-//@     invariant[C05,C07] idIdx == -1 ==> id == ""
-//@     invariant[C05,C07] typIdx == -1 ==> typ == ""
-//@     invariant[C05,C07] (exists k int :: 0 <= k && k <= rangeindex && unq(attrs[k], "id")) ==> idIdx >= 0
-//@     invariant[C05,C07] (exists k int :: 0 <= k && k <= rangeindex && unq(attrs[k], "type")) ==> typIdx >= 0
+//@     invariant[C05,C06,C07] idIdx >= 0 ==> unq(attrs[idIdx], "id") && id == attrs[idIdx].Value
+//@     invariant[C05,C06,C07] typIdx >= 0 ==> unq(attrs[typIdx], "type") && typ == attrs[typIdx].Value
+//@     invariant[C05,C06,C07] idIdx == -1 ==> id == ""
+//@     invariant[C05,C06,C07] typIdx == -1 ==> typ == ""
+//@     invariant[C05,C06,C07] (exists k int :: 0 <= k && k <= rangeindex && unq(attrs[k], "id")) ==> idIdx >= 0
+//@     invariant[C05,C06,C07] (exists k int :: 0 <= k && k <= rangeindex && unq(attrs[k], "type")) ==> typIdx >= 0
 
 // ---------------------------------------------------------------------------
 // C03: the authenticated bit is only set by a completed, accepted exchange
